@@ -1,7 +1,79 @@
-(* C05 — versioning (growing) *)
-From GF Require Import Base.Bytes Model.Mem Proofs.MemProofs.
-Theorem C05_read_after_write : forall s b k body m s' vid,
-  put_object s b k body m = (s', (None, vid)) ->
-  exists v sv, get_object s' b k = OObj v sv /\ vd_body v = body /\ vd_meta v = m /\ vd_marker v = false.
-Proof. exact get_after_put. Qed.
-Print Assumptions C05_read_after_write.
+(* C05 — Versioning never loses history and always serves the newest remaining version.
+   Model: Model/Mem.v (bucket_put / bucket_rm / bucket_rm_version / get_object_version) under the
+   handlers of Model/Handlers.v.  Every statement holds in every state satisfying the invariant,
+   which holds after every operation sequence (C05_reachable_inv). *)
+From GF Require Import Base.Bytes Base.SortedMap Model.Mem Model.BucketName Model.Handlers
+  Proofs.MemInvDef Proofs.MemInv Proofs.VersionProofs.
+
+Theorem C05_reachable_inv : forall c ops, Inv (fst (run c init ops)).
+Proof. exact run_inv. Qed.
+Print Assumptions C05_reachable_inv.
+
+(* every upload into an Enabled bucket gets an id greater than every id stored before — fresh and
+   unique — and is retrievable under that id with exactly its bytes and metadata *)
+Theorem C05_fresh_ids : forall c s b k body m s1 id,
+  Inv s -> step c s (OPut b k body m) = (s1, RPut (Some id)) ->
+  (forall b' k' id' v sv, get_object_version s b' k' id' = OObj v sv -> (id' < id)%N) /\
+  exists v sv, get_object_version s1 b k id = OObj v sv /\ vd_body v = body /\ vd_meta v = m /\
+               vd_null v = false /\ vd_marker v = false.
+Proof. exact put_fresh_id. Qed.
+Print Assumptions C05_fresh_ids.
+
+(* a version created while versioning was Enabled stays retrievable by id, unchanged, through
+   EVERY operation (puts, plain deletes, suspension, writes while suspended, deletes of other
+   versions, multi-deletes) except the deletion of that very version *)
+Theorem C05_old_version_retrievable_until_deleted : forall c s o b k id v sv,
+  Inv s -> get_object_version s b k id = OObj v sv -> vd_null v = false ->
+  ~ deletes_version o b k id ->
+  exists sv', get_object_version (fst (step c s o)) b k id = OObj v sv'.
+Proof. exact version_survives. Qed.
+Print Assumptions C05_old_version_retrievable_until_deleted.
+
+(* a plain delete only adds a delete marker: the key reads NoSuchKey (its versions remain by the
+   previous theorem) *)
+Theorem C05_plain_delete_adds_marker : forall c s b k bk o0,
+  Inv s -> get_bucket s b = Some bk -> b_ver bk = VEnabled -> sm_get k (b_objs bk) = Some o0 ->
+  exists s1 id, step c s (ODelete b k) = (s1, RDel true (Some id)) /\
+                get_object s1 b k = OErr ENoSuchKey /\
+                exists mk sv, get_object_version s1 b k id = OObj mk sv /\ vd_marker mk = true.
+Proof. exact plain_delete_adds_marker. Qed.
+Print Assumptions C05_plain_delete_adds_marker.
+
+(* deleting a specific version removes just that version *)
+Theorem C05_delete_version_removes_only_it : forall c s b k id,
+  Inv s -> cfg_versioned c = true -> get_bucket s b <> None ->
+  let s1 := fst (step c s (ODeleteVersion b k id)) in
+  (forall v sv, get_object_version s1 b k id <> OObj v sv) /\
+  (forall b' k' id' v sv, (b', k', id') <> (b, k, id) ->
+      get_object_version s b' k' id' = OObj v sv -> get_object_version s1 b' k' id' = OObj v sv).
+Proof. exact delete_version_only_that. Qed.
+Print Assumptions C05_delete_version_removes_only_it.
+
+(* an unqualified read serves the most recently created remaining version, or NoSuchKey when
+   that is a delete marker *)
+Theorem C05_unqualified_serves_newest_remaining : forall s b k bk o,
+  Inv s -> get_bucket s b = Some bk -> sm_get k (b_objs bk) = Some o ->
+  exists cur, o_data o = Some cur /\
+    (forall id v sv, get_object_version s b k id = OObj v sv -> (vd_vid v <= vd_vid cur)%N) /\
+    (vd_marker cur = false -> exists sv, get_object s b k = OObj cur sv) /\
+    (vd_marker cur = true -> get_object s b k = OErr ENoSuchKey).
+Proof. exact unqualified_is_newest. Qed.
+Print Assumptions C05_unqualified_serves_newest_remaining.
+
+(* no reachable state has a nil current version: no request panics *)
+Theorem C05_no_nil_current_version : forall c s o, Inv s -> snd (step c s o) <> RErr EPanic.
+Proof. exact step_no_panic. Qed.
+Print Assumptions C05_no_nil_current_version.
+
+(* non-vacuity / regression witness: delete the current version while an older one remains, then
+   write and delete while suspended; the Enabled-era version 1 survives it all *)
+Definition c05_cfg := {| cfg_auto_bucket := false; cfg_versioned := true; cfg_pages := true; cfg_fail_unimpl_page := false |}.
+Definition c05_b : list N := [98;107;116]%N.
+Definition c05_ops : list op :=
+  [OCreateBucket c05_b; OSetVersioning c05_b true; OPut c05_b [107]%N [1]%N []; OPut c05_b [107]%N [2]%N [];
+   ODeleteVersion c05_b [107]%N 2; OGet c05_b [107]%N None;
+   OSetVersioning c05_b false; OPut c05_b [107]%N [3]%N []; ODelete c05_b [107]%N; OGet c05_b [107]%N (Some 1%N)].
+Example C05_ex_history :
+  map (fun r => match r with RObj v _ => Some (vd_body v) | _ => None end) (snd (run c05_cfg init c05_ops))
+  = [None; None; None; None; None; Some [1]%N; None; None; None; Some [1]%N].
+Proof. vm_compute. reflexivity. Qed.
